@@ -99,6 +99,27 @@ fn mutants(txs: &[Transaction]) -> Vec<(String, Vec<Transaction>)> {
         out.push((format!("repeat last {}", k), m));
         k *= 2;
     }
+    // the same repetitions with the copies' witnesses altered: same txid (and merkle root),
+    // different bytes and wtxid - still two transactions sharing an id
+    let alter = |t: &Transaction| {
+        let mut t = t.clone();
+        for i in t.input.iter_mut() {
+            i.witness.push([0x01u8]);
+        }
+        t
+    };
+    let mut k = 1;
+    while k <= n {
+        let mut m = txs.to_vec();
+        m.extend(txs[n - k..].iter().map(alter));
+        out.push((format!("repeat last {} with altered witnesses", k), m));
+        k *= 2;
+    }
+    if n >= 3 {
+        let mut m = txs.to_vec();
+        m.insert(2, alter(&txs[1]));
+        out.push(("copy of tx 1 with an altered witness at position 2".into(), m));
+    }
     // composition to depth 2
     let first: Vec<(String, Vec<Transaction>)> = out[1..].to_vec();
     for (name, m) in &first {
@@ -193,6 +214,9 @@ pub fn run(tier: &str) -> i32 {
                     out.count("rejected_variants");
                     if !recompute && name != "valid" && ref_merkle_root(&ids) == orig_root && m.len() > n {
                         out.count("merkle_preserving_duplications_rejected");
+                        if name.contains("altered witnesses") {
+                            out.count("merkle_preserving_duplications_with_altered_witnesses_rejected");
+                        }
                         if got != Err(ValidateBlockError::DuplicateTransactions) {
                             out.set_history(ctx.clone());
                             out.violation("cve-mutant-rejected-for-another-reason", None, json!({"observed": format!("{:?}", got)}));
@@ -234,11 +258,12 @@ pub fn run(tier: &str) -> i32 {
     out.samples.push(json!({"transactions": 6, "mutation": "repeat last 2", "root": "left alone", "expected": "rejected: DuplicateTransactions"}));
     rep.out.merge(out);
     rep.evaluations = rep.out.states;
-    rep.rule = "for n = 1..17 (quick) / 1..33 (thorough) transactions (legacy and segwit): the valid block; repetition of the trailing 2^k leaves for every k (all merkle-preserving duplications and their non-preserving siblings), closed under composition to depth 2; every removal, adjacent swap, rotation; coinbase moved, duplicated, second coinbase; a duplicate in the middle; the empty list; each with the header's root left alone and recomputed (header re-mined); through BlockValidator::validate_block and state::insert_block; distinct = distinct block bytes".into();
+    rep.rule = "for n = 1..17 (quick) / 1..33 (thorough) transactions (legacy and segwit): the valid block; repetition of the trailing 2^k leaves for every k (all merkle-preserving duplications and their non-preserving siblings), the same with the copies' witnesses altered (same txid, other wtxid), closed under composition to depth 2; every removal, adjacent swap, rotation; coinbase moved, duplicated, second coinbase; a duplicate in the middle; the empty list; each with the header's root left alone and recomputed (header re-mined); through BlockValidator::validate_block and state::insert_block; distinct = distinct block bytes".into();
     rep.bounds = json!({"tier": tier, "max_transactions": max_n});
     rep.assume("reference: independent merkle routine + the four clauses of the statement");
     rep.assume("transactions that differ only in signature data (same ntxid) cannot occur in a transaction-valid block and are not judged");
     rep.floor("merkle_preserving_duplications_rejected", 15);
+    rep.floor("merkle_preserving_duplications_with_altered_witnesses_rejected", 10);
     rep.floor("accepted_variants", 100);
     rep.floor("rejected_variants", 500);
     rep.floor("insert_block_agreements", 500);
